@@ -1,7 +1,7 @@
 // C58 — Ipc::TypedMsgHdr: every put sequence x every get sequence, and raw-buffer mutants, against a
 // reference (de)serialiser working on plain bytes (E1).
 //
-// Real code: src/ipc/TypedMsgHdr.cc of the current tree (testRock link set).  A message is built with
+// Real code: src/ipc/TypedMsgHdr.cc of the current tree (ipc/TypedMsgHdr.o of the scratch tree).  A message is built with
 // the real put*() primitives, "sent" (its data buffer {type, size, raw[maxSize]} is copied byte for
 // byte into a fresh message prepared with prepForReading(), exactly what a datagram read does), and
 // then read back with the real get*() primitives, both directly and through the copy constructor.
